@@ -180,6 +180,14 @@ theorem hists_getD {opts g h i c} (hinv : Inv opts g h) (hc : g.cs[i]? = some c)
   rw [hinv.hists]
   simp [recordHists, List.getD_eq_getElem?_getD, List.getElem?_mapIdx, List.getElem?_map, hc, group]
 
+/-- within the invariant no PreStart is scripted to fail -/
+theorem all_nofail {opts : List Opt} {f : Family} {h : Hists} (hinv : Inv opts f h) :
+    f.cs.all (fun c => c.failNext == 0) = true := by
+  rw [List.all_eq_true]
+  intro c hc
+  obtain ⟨j, hj, rfl⟩ := List.getElem_of_mem hc
+  simp [(hinv.wf j _ (List.getElem?_eq_getElem hj)).nofail]
+
 /-- the expectation of the text for a Restart directive -/
 def restartExpect (opts : List Opt) (g : Family) (h : Hists) (i : Nat) : Expect × Hists :=
   if exhausted (newSupervisor opts) ((recordHists (newSupervisor opts).strategy g.obs i g.now h).getD i []) then
@@ -201,7 +209,7 @@ theorem good_restart {opts g h i c} (hinv : Inv opts g h) (hc : g.cs[i]? = some 
         { f1 with cs := mapGroup f1 all i (suspendSibling i) }
       else { f1 with cs := mapGroup f1 all i (fun _ c => (restartOne c).1) } := by
     simp only [handlePanicking, handleRestartDirective, dRestart, dStop, sup_suspended, now_suspended]
-    simp only [show (2 : Nat) = 0 ↔ False from by decide, if_false, if_true]
+    simp only [show (2 : Nat) = 0 ↔ False from by decide, if_false, if_true, all_nofail (inv_suspended hinv hc ha)]
     have key : ∀ (b : Bool) (x y : Family × List Event), (if b = true then x else y).1 = if b = true then x.1 else y.1 := by
       intro b x y; cases b <;> rfl
     exact key _ _ _
